@@ -513,6 +513,49 @@ func c05Case(w *core.Worker, i int) {
 			if len(t.Cols) < 3 || ci < 0 {
 				continue
 			}
+			if len(t.Cols) >= 4 && r.P(70) {
+				// several columns in one DROP, listed in any order
+				idc := t.col("id")
+				var cand []int
+				for j := range t.Cols {
+					if j != idc {
+						cand = append(cand, j)
+					}
+				}
+				perm := r.Perm(len(cand))
+				nd := r.Range(2, len(cand)-0)
+				if nd > len(cand)-1 {
+					nd = len(cand) - 1
+				}
+				if nd >= 2 {
+					drop := map[int]bool{}
+					var names []string
+					for _, x := range perm[:nd] {
+						drop[cand[x]] = true
+						names = append(names, t.Cols[cand[x]])
+					}
+					sql := fmt.Sprintf("ALTER TABLE %s DROP (%s);", tn, strings.Join(names, ", "))
+					var nc []string
+					for j, c := range t.Cols {
+						if !drop[j] {
+							nc = append(nc, c)
+						}
+					}
+					for ri, row := range t.Rows {
+						var nr []*string
+						for j, c := range row {
+							if !drop[j] {
+								nr = append(nr, c)
+							}
+						}
+						t.Rows[ri] = nr
+					}
+					t.Cols = nc
+					steps = append(steps, step{sql, -1, true, nil})
+					w.Count("drops_of_several_columns", 1)
+					continue
+				}
+			}
 			if r.Bool() {
 				sql := fmt.Sprintf("ALTER TABLE %s DROP %s;", tn, t.Cols[ci])
 				t.Cols = append(append([]string{}, t.Cols[:ci]...), t.Cols[ci+1:]...)
